@@ -24,6 +24,7 @@ Case genHistory(Choices &c, int tier, const char *prop, bool tokenEmphasis) {
     if (kind <= 5) { gd.raw = genGrammar(c, o); gd.strict = c.flip(); if (!classify(gd.raw, gd.strict).empty() && classify(gd.raw, !gd.strict).empty()) gd.strict = !gd.strict; }
     else if (kind <= 6) { gd.raw = genGrammar(c, o); gd.strict = c.flip(); injectDefectPublic(c, gd.raw); }
     else gd = genTextGramPublic(c, 0, kind == 9);
+    if (c.chance(12) && !gd.mutated) elongate(c, gd); // one symbol name of 300-1700 characters
     cs.grams.push_back(gd);
   }
   // inputs: sentences / non-sentences of the pool grammars, plus token sequences with undeclared codes
@@ -134,6 +135,7 @@ bool computeFresh(const Case &cs, const std::vector<std::pair<std::string, std::
 
 Verdict runHistory(const Case &cs) {
   Verdict v;
+  bool cutShort = false; // a parse ended by one of the harness limits: its unfinished tree belongs to nobody
   int ng = cs.grams.size(), ni = cs.inputs.size();
   if (!ng || !ni) { v.st = V_DISCARD; return v; }
   // ---------- pass 1: the pure model walks the history and lists the fresh-object jobs
@@ -255,9 +257,12 @@ Verdict runHistory(const Case &cs) {
         continue;
       }
       yaep_verif.rec_limit = REC_LIMIT;
-      Outcome o = runParse(b, codes, cf);
+      // the settings live in the object (the `set' operations put them there): the parse must not be preceded by setter
+      // calls, or a setting altered behind the user's back by an earlier call would be repaired before anybody could see it
+      ParseOpts hpo; hpo.apply_settings = false;
+      Outcome o = runParse(b, codes, cf, hpo);
       v.parses++;
-      if (o.exploded()) { v.labels.insert(o.explosionLabel()); lastErr[s] = o.rc; continue; }
+      if (o.exploded()) { v.labels.insert(o.explosionLabel()); lastErr[s] = o.rc; cutShort = true; continue; }
       if (o.t_bad_free) { v.fail("parse_free misuse: " + o.t_bad + at); return v; }
       if (sl[s].gram < 0 || !sl[s].defined) {
         if (o.rc != E_UNDEF) { v.fail("parse on an object without a (valid) grammar returned " + std::to_string(o.rc) + " instead of YAEP_UNDEFINED_OR_BAD_GRAMMAR: " + o.str() + at); return v; }
@@ -290,8 +295,15 @@ Verdict runHistory(const Case &cs) {
       if (nParse[s] >= 2) v.labels.insert("h:several-parses-on-one-object");
     }
   }
+  // last sweep: one more call of every setter on every live object; each returns what the history last put there
+  for (int s = 0; s < NSLOT; s++) if (ob[s] && sl[s].alive) {
+    Binding &b = *ob[s];
+    int got[6] = {b.set_la(1), b.set_one(1), b.set_cost(0), b.set_rec(1), b.set_match(3), b.set_dbg(0)};
+    for (int w = 0; w < 6; w++)
+      if (got[w] != sl[s].st.v[w]) { v.fail("at the end of the history setter " + std::to_string(w) + " of object " + std::to_string(s) + " returned " + std::to_string(got[w]) + ", the value last set (or the documented default) is " + std::to_string(sl[s].st.v[w])); return v; }
+  }
   for (int s = 0; s < NSLOT; s++) if (ob[s]) { ob[s]->destroy(); delete ob[s]; freeOrder.push_back(s); }
-  if (g_lib.live_blocks != base) { v.fail("after every object and tree was freed the library still holds " + std::to_string(g_lib.live_blocks - base) + " blocks"); return v; }
+  if (!cutShort && g_lib.live_blocks != base) { v.fail("after every object and tree was freed the library still holds " + std::to_string(g_lib.live_blocks - base) + " blocks"); return v; }
   if (maxAlive >= 2) v.labels.insert("h:several-objects-alive");
   if (createOrder != freeOrder) v.labels.insert("h:freed-in-non-creation-order");
   if (maxAlive >= 2 || v.labels.count("h:several-parses-on-one-object") || v.labels.count("h:redefinition") || v.labels.count("h:failed-redefinition") ||
